@@ -45,6 +45,12 @@ fn idx_cr(d: u64) -> usize {
 
 /// one evaluation: Ok(value) or Err(failure)
 fn eval_toa(p: &BaseBandModulationParams, sf: usize, bw: usize, cr: usize, pre: Option<u8>, explicit: bool, len: u8) -> Result<u32, Failure> {
+    eval_toa_ex(p, sf, bw, cr, pre, explicit, len, None)
+}
+
+/// `built_cr`: the parameter set was created with that coding rate and its public `cr` field was then
+/// assigned the one under test (the set in force when time_on_air_us is called is what counts)
+fn eval_toa_ex(p: &BaseBandModulationParams, sf: usize, bw: usize, cr: usize, pre: Option<u8>, explicit: bool, len: u8, built_cr: Option<usize>) -> Result<u32, Failure> {
     // the `ldro` field is public and documented as forceable: the case records a forced value
     let auto = BaseBandModulationParams::new(SFS[sf], BWS[bw], CRS[cr]).ldro;
     let forced = p.ldro != auto;
@@ -52,6 +58,9 @@ fn eval_toa(p: &BaseBandModulationParams, sf: usize, bw: usize, cr: usize, pre: 
         let mut c = case_json(sf, bw, cr, pre, explicit, len);
         if forced {
             c["ldro_forced"] = json!(p.ldro);
+        }
+        if let Some(b) = built_cr {
+            c["built_with_cr_denom"] = json!(CRS[b].denom());
         }
         c
     };
@@ -65,7 +74,7 @@ fn eval_toa(p: &BaseBandModulationParams, sf: usize, bw: usize, cr: usize, pre: 
     }
     if got as u128 != want {
         let num = airtime::numerator(SFS[sf].factor(), explicit, len as u32);
-        let fp = if forced { "formula-equal/ldro-forced" } else if num <= 0 { "formula-equal/numerator<=0" } else { "formula-equal" };
+        let fp = if built_cr.is_some() { "formula-equal/cr-reassigned" } else if forced { "formula-equal/ldro-forced" } else if num <= 0 { "formula-equal/numerator<=0" } else { "formula-equal" };
         return Err(Failure::new("formula-equal", case_json(sf, bw, cr, pre, explicit, len), format!("time_on_air_us = {got}, Semtech formula = {want} (numerator {num})")).with_fp(fp));
     }
     Ok(got)
@@ -75,12 +84,14 @@ pub fn replay(case: &Value, _kf: &KnownFindings) -> Result<(), Failure> {
     match case["kind"].as_str() {
         Some("toa") => {
             let (sf, bw, cr) = (idx_sf(case["sf"].as_u64().unwrap_or(7)), idx_bw(case["bw_hz"].as_u64().unwrap_or(125000)), idx_cr(case["cr_denom"].as_u64().unwrap_or(5)));
-            let mut p = BaseBandModulationParams::new(SFS[sf], BWS[bw], CRS[cr]);
+            let built = case["built_with_cr_denom"].as_u64().map(idx_cr);
+            let mut p = BaseBandModulationParams::new(SFS[sf], BWS[bw], CRS[built.unwrap_or(cr)]);
+            p.cr = CRS[cr];
             if let Some(f) = case["ldro_forced"].as_bool() {
                 p.ldro = f;
             }
             let pre = case["preamble"].as_u64().map(|x| x as u8);
-            eval_toa(&p, sf, bw, cr, pre, case["explicit_header"].as_bool().unwrap_or(true), case["len"].as_u64().unwrap_or(0) as u8).map(|_| ())
+            eval_toa_ex(&p, sf, bw, cr, pre, case["explicit_header"].as_bool().unwrap_or(true), case["len"].as_u64().unwrap_or(0) as u8, built).map(|_| ())
         }
         Some("symbols") => {
             let (sf, bw) = (idx_sf(case["sf"].as_u64().unwrap_or(7)), idx_bw(case["bw_hz"].as_u64().unwrap_or(125000)));
@@ -117,7 +128,7 @@ fn helper_case(sf: usize, bw: usize, ms: u32, symbols: u32) -> Result<(), Failur
 pub fn run(ctx: &mut Ctx) {
     ctx.level = "exploration".into();
     ctx.exhaustive = true;
-    ctx.rule = "exhaustive: 8 SF x 10 BW x 4 CR x 256 lengths x 2 header modes x (None + 256 preamble lengths), each compared for exact equality with the Semtech formula in i64/u128 arithmetic and for monotonicity in the length; plus the same with low-data-rate optimisation forced to the other setting through the public field (4 preamble settings); plus delay_in_symbols/symbols_to_ms on ms/symbol grids. Non-trivial (distinct by construction): numerator <= 0, or implicit header, or CR != 4/5, or preamble != Some(8)".into();
+    ctx.rule = "exhaustive: 8 SF x 10 BW x 4 CR x 256 lengths x 2 header modes x (None + 256 preamble lengths), each compared for exact equality with the Semtech formula in i64/u128 arithmetic and for monotonicity in the length; plus the same with low-data-rate optimisation forced to the other setting through the public field (4 preamble settings), and with the public coding-rate field assigned after creation (every ordered pair of coding rates); plus delay_in_symbols/symbols_to_ms on ms/symbol grids. Non-trivial (distinct by construction): numerator <= 0, or implicit header, or CR != 4/5, or preamble != Some(8)".into();
     ctx.assumptions = vec![
         "the Semtech formula is the SX127x/AN1200.13 one the crate documents, for every SF".into(),
         "the DE term uses the parameter set's LDRO flag: the one `new()` derives (C15 judges that decision) and the opposite one forced by the caller".into(),
@@ -147,6 +158,25 @@ pub fn run(ctx: &mut Ctx) {
                                 st.nt_distinct();
                                 if let Err(f) = eval_toa(&pf, sf, bw, cr, pre, explicit, len) {
                                     st.fail(f);
+                                }
+                            }
+                        }
+                    }
+                    // a parameter set that is used again with another coding rate (public field assigned after
+                    // `new()`): the coding rate in force at the call is what the formula takes
+                    for k in 1..4usize {
+                        let b = (cr + k) % 4;
+                        let mut pc = BaseBandModulationParams::new(SFS[sf], BWS[bw], CRS[b]);
+                        pc.cr = CRS[cr];
+                        for explicit in [true, false] {
+                            for pre in [None, Some(8u8)] {
+                                for len in (0..=255u8).step_by(3) {
+                                    st.eval();
+                                    st.class("cr-reassigned");
+                                    st.nt_distinct();
+                                    if let Err(f) = eval_toa_ex(&pc, sf, bw, cr, pre, explicit, len, Some(b)) {
+                                        st.fail(f);
+                                    }
                                 }
                             }
                         }
